@@ -4,6 +4,14 @@ import subprocess, os
 V = os.path.dirname(os.path.dirname(os.path.abspath(__file__)))
 def rd(n): return open(os.path.join(V, "docs", n)).read()
 table = subprocess.run(["python3", os.path.join(V, "bin", "seedtable.py")], capture_output=True, text=True).stdout
-doc = rd("design-main.md") + rd("design-props.md") + rd("design-tail.md") + rd("design-s9.md").replace("SEEDTABLE", table) + rd("design-s10.md") + "\n" + rd("design-appendix.md")
+import glob, json
+rows = ["| change | what happened when it was first run, and what was added |", "|---|---|"]
+for d in sorted(glob.glob(os.path.join(V, "seeded", "*-[ef]"))):
+    mp = os.path.join(d, "meta.json")
+    if os.path.exists(mp):
+        h = json.load(open(mp)).get("history", "").replace("|", "/").replace("\n", " ")
+        rows.append(f"| {os.path.basename(d)} | {h} |")
+history = "\n".join(rows)
+doc = rd("design-main.md") + rd("design-props.md") + rd("design-tail.md") + rd("design-s9.md").replace("SEEDTABLE", table).replace("SEEDHISTORY", history) + rd("design-s10.md") + "\n" + rd("design-appendix.md")
 open(os.path.join(V, "DESIGN.md"), "w").write(doc)
 print(len(doc.splitlines()), "lines")
